@@ -276,6 +276,16 @@ def answer (line : String) : String :=
       | some (v, []) => showResBytes (Impl.encodeTo ty v)
       | _ => "bad-op"
     | none => "bad-op"
+  | "encdq" :: rest =>
+    match parseTy rest with
+    | some (ty, r) =>
+      match parseVal r with
+      | some (.seq front, r2) =>
+        match parseVal r2 with
+        | some (.seq back, []) => showResBytes (Impl.encodeDeque ty front back)
+        | _ => "bad-op"
+      | _ => "bad-op"
+    | none => "bad-op"
   | "enc4" :: rest =>
     match parseTy rest with
     | some (ty, r) =>
